@@ -814,7 +814,25 @@ class _Ctx:
 
     def block(self, stmts, env, conds):
         """returns the fall-through environment or None when every path returned/raised"""
-        for st in stmts:
+        for i_, st in enumerate(stmts):
+            # the explicit short-circuit loop `for x in xs: if T(x): return B` followed by `return not B` is any / all over xs
+            nxt = stmts[i_ + 1] if i_ + 1 < len(stmts) else None
+            if (isinstance(st, ast.For) and not st.orelse and len(st.body) == 1 and isinstance(st.body[0], ast.If) and not st.body[0].orelse and len(st.body[0].body) == 1
+                    and isinstance(st.body[0].body[0], ast.Return) and isinstance(st.body[0].body[0].value, ast.Constant) and isinstance(st.body[0].body[0].value.value, bool)
+                    and isinstance(nxt, ast.Return) and isinstance(nxt.value, ast.Constant) and nxt.value.value is (not st.body[0].body[0].value.value)):
+                it = _iterable(self.expr(st.iter, env))
+                benv = dict(env)
+                self.assign(st.target, mk_elem(it), benv)
+                test = self.expr(st.body[0].test, benv)
+                found = st.body[0].body[0].value.value  # value returned as soon as the test holds
+                if found:
+                    v = mk_call(G("any"), (mk_fam(it, test),), ())
+                else:
+                    neg = test[2] if is_t(test, "un") and test[1] == "not" else ("un", "not", test)
+                    v = mk_call(G("all"), (mk_fam(it, neg),), ())
+                self.res.returns.append((conds, v))
+                self.res.env_at_return = env
+                return None
             self._extra = ()
             env = self.stmt(st, env, conds)
             if env is None:
@@ -1472,6 +1490,10 @@ class _Ctx:
             # functools.reduce(f, xs, init) is the loop `acc = init; for x in xs: acc = f(acc, x)`
             it_ = _iterable(args[1])
             return ("loop", it_, args[2], self.call_value(args[0], [args[2], mk_elem(it_)], {}))
+        if name in ("all", "any") and len(args) == 1 and not kwargs and is_t(args[0], "call") and args[0][1] in (G("map"), G("jax.util.safe_map")) and len(args[0][2]) == 2 and not args[0][3]:
+            # all(map(f, xs)) is all(f(x) for x in xs)
+            it_ = _iterable(args[0][2][1])
+            return mk_call(f, (mk_fam(it_, self.call_value(args[0][2][0], [mk_elem(it_)], {})),), ())
         if short == "reversed" and len(args) == 1:
             return ("reversed", args[0])
         if short == "isinstance" and len(args) == 2:
